@@ -281,7 +281,7 @@ pub fn run(run: &Run) {
         run.eval();
         let max_items = if i % 3 == 0 { 1 } else { 6 };
         check_case(run, "C03", "seq", s, &|s| gen_seq(s, max_items, depth), &run_seq, &witness_seq,
-            &|c, s| { run.nontrivial(fnv(&c.text)); for l in &s.labels { run.count(&format!("label:{}", l)); } if i < 5 { run.sample(witness_seq(c)); } }, json!({"max_items": max_items, "depth": depth}));
+            &|c, s| { run.nontrivial(fnv(&c.text)); run.count_labels(&s.labels); if i < 5 { run.sample(witness_seq(c)); } }, json!({"max_items": max_items, "depth": depth}));
     });
     if !run.quick() { crate::lanes::miri(run, "parse", &[1, 2, 3, 4, 5, 6, 7, 8], None); }
     let n2 = run.n(300_000, 5_000_000);
@@ -289,7 +289,7 @@ pub fn run(run: &Run) {
         let s = Src::fresh(Rng::derive(run.seed, 33, i));
         run.eval();
         check_case(run, "C03", "indirect", s, &gen_ind, &run_ind, &witness_ind,
-            &|c, s| { run.nontrivial(fnv(&c.text)); run.count(if c.stream.is_some() { "indirect:stream" } else { "indirect:value" }); for l in &s.labels { run.count(&format!("label:{}", l)); } if i < 3 { run.sample(witness_ind(c)); } }, json!({}));
+            &|c, s| { run.nontrivial(fnv(&c.text)); run.count(if c.stream.is_some() { "indirect:stream" } else { "indirect:value" }); run.count_labels(&s.labels); if i < 3 { run.sample(witness_ind(c)); } }, json!({}));
     });
     // thorough: the same quick workload once more under the AddressSanitizer build (memory errors in the library or its dependencies)
     if !run.quick() { crate::lanes::asan_rerun(run); }
